@@ -174,6 +174,110 @@ Section Proofs.
       + cbn [fst snd]. split; [|cbn; lia].
         exists [], (None, committed w1). cbn. repeat split; auto.
   Qed.
+
+  (** a fault at COMMIT (no earlier fault fires) is the exception of the attempt *)
+  Lemma attempt_commit_error (stmts : list W) f w e l :
+    clean_pool w ->
+    f_acquire f = None -> f_start f = None -> stmt_out_of_range (length stmts) f -> f_commit f = Some (e, l) ->
+    fst (att stmts f w) = Some e.
+  Proof.
+    intros Hc Ha Hs Hr Hcm. unfold attempt. rewrite Ha, Hs.
+    destruct (acquire_clean w Hc) as (Hp & Ht & Hal).
+    destruct (pool_acquire w) as [p t a]; cbn in Hp, Ht, Hal; subst p t a.
+    unfold srv_begin; cbn [pending alive].
+    unfold stmt_out_of_range in Hr.
+    destruct (f_stmt f) as [[[i e'] eff]|].
+    - apply Nat.ltb_ge in Hr. rewrite Hr. rewrite exec_all_mk. unfold leave. rewrite exit_ok. cbn. rewrite Hcm.
+      destruct l; reflexivity.
+    - rewrite exec_all_mk. unfold leave. rewrite exit_ok. cbn. rewrite Hcm. destruct l; reflexivity.
+  Qed.
+
+  (** wherever the adversary strikes (acquire, START TRANSACTION, ANY statement index, COMMIT), the injected error is the
+      exception that reaches the retry wrapper ... *)
+  Lemma attempt_fault_site (stmts : list W) f w e :
+    guarded = true -> clean_pool w -> fault_site (length stmts) f e -> fst (att stmts f w) = Some e.
+  Proof.
+    intros Hg Hc Hsite. destruct Hsite as [Ha | l Ha Hs | i eff Ha Hs Hst Hi | l Ha Hs Hr Hcm].
+    - rewrite (attempt_acquire_error stmts f w e Ha). reflexivity.
+    - exact (attempt_start_error stmts f w e l Ha Hs).
+    - exact (attempt_body_error stmts f w i e eff Hg Ha Hs Hst Hi).
+    - exact (attempt_commit_error stmts f w e l Hc Ha Hs Hr Hcm).
+  Qed.
+
+  (** ... and when no fault fires the attempt succeeds *)
+  Lemma attempt_no_fault_site (stmts : list W) f w :
+    clean_pool w -> (forall e, ~ fault_site (length stmts) f e) -> fst (att stmts f w) = None.
+  Proof.
+    intros Hc Hno.
+    destruct (f_acquire f) as [ea|] eqn:Ha; [exfalso; exact (Hno ea (AtAcquire _ _ _ Ha))|].
+    destruct (f_start f) as [[es ls]|] eqn:Hs; [exfalso; exact (Hno es (AtStart _ _ _ ls Ha Hs))|].
+    unfold attempt. rewrite Ha, Hs.
+    destruct (acquire_clean w Hc) as (Hp & Ht & Hal).
+    destruct (pool_acquire w) as [p t a]; cbn in Hp, Ht, Hal; subst p t a.
+    unfold srv_begin; cbn [pending alive].
+    destruct (f_stmt f) as [[[i e'] eff]|] eqn:Hst.
+    - destruct (i <? length stmts)%nat eqn:Hi.
+      + apply Nat.ltb_lt in Hi. exfalso. exact (Hno e' (AtStatement _ _ _ i eff Ha Hs Hst Hi)).
+      + apply Nat.ltb_ge in Hi.
+        rewrite exec_all_mk. unfold leave. rewrite exit_ok. cbn.
+        destruct (f_commit f) as [[ec lc]|] eqn:Hcm; [|reflexivity].
+        exfalso. apply (Hno ec). apply (AtCommit _ _ _ lc Ha Hs); [|exact Hcm].
+        unfold stmt_out_of_range. rewrite Hst. exact Hi.
+    - rewrite exec_all_mk. unfold leave. rewrite exit_ok. cbn.
+      destruct (f_commit f) as [[ec lc]|] eqn:Hcm; [|reflexivity].
+      exfalso. apply (Hno ec). apply (AtCommit _ _ _ lc Ha Hs); [|exact Hcm].
+      unfold stmt_out_of_range. rewrite Hst. exact I.
+  Qed.
+
+  Lemma run_cons_final (stmts : list W) f rest w e :
+    fst (att stmts f w) = Some e -> retryable e = false ->
+    rn stmts (f :: rest) w = (Some e, snd (att stmts f w), [(Some e, committed (snd (att stmts f w)))]).
+  Proof.
+    intros H Hr. cbn [run]. destruct (att stmts f w) as [r w1]; cbn [fst snd] in *. subst r. rewrite Hr. reflexivity.
+  Qed.
+
+  Lemma run_cons_retry (stmts : list W) f rest w e :
+    fst (att stmts f w) = Some e -> retryable e = true ->
+    rn stmts (f :: rest) w =
+    (let '(r2, w2, tr) := rn stmts rest (snd (att stmts f w)) in (r2, w2, (Some e, committed (snd (att stmts f w))) :: tr)).
+  Proof.
+    intros H Hr. cbn [run]. destruct (att stmts f w) as [r w1]; cbn [fst snd] in *. subst r. rewrite Hr. reflexivity.
+  Qed.
+
+  (** the first attempt is hit by a fault anywhere: nothing is committed by it; a non-retryable error ends the call at once
+      (log = initial), a retryable one makes the WHOLE statement list run again from an unchanged log and a clean pool *)
+  Lemma run_fault_first (stmts : list W) f rest w e :
+    guarded = true -> clean_pool w -> fault_site (length stmts) f e ->
+    exists w1, clean_pool w1 /\ committed w1 = committed w /\
+      rn stmts (f :: rest) w =
+      if retryable e
+      then (let '(r2, w2, tr) := rn stmts rest w1 in (r2, w2, (Some e, committed w) :: tr))
+      else (Some e, w1, [(Some e, committed w)]).
+  Proof.
+    intros Hg Hc Hsite.
+    pose proof (attempt_fault_site stmts f w e Hg Hc Hsite) as Hfst.
+    pose proof (attempt_atomic stmts f w Hc) as (Hc1 & Hlog). rewrite Hfst in Hlog.
+    exists (snd (att stmts f w)). split; [exact Hc1|]. split; [exact Hlog|].
+    destruct (retryable e) eqn:Hre.
+    - rewrite (run_cons_retry stmts f rest w e Hfst Hre). rewrite Hlog. reflexivity.
+    - rewrite (run_cons_final stmts f rest w e Hfst Hre). rewrite Hlog. reflexivity.
+  Qed.
+
+  (** one retryable fault anywhere, then no further fault: every statement is committed exactly once *)
+  Lemma run_single_retry (stmts : list W) f w e :
+    guarded = true -> clean_pool w -> fault_site (length stmts) f e -> retryable e = true ->
+    exists w2, clean_pool w2 /\ committed w2 = committed w ++ stmts /\
+      rn stmts [f] w = (None, w2, [(Some e, committed w); (None, committed w ++ stmts)]).
+  Proof.
+    intros Hg Hc Hsite Hre.
+    destruct (run_fault_first stmts f [] w e Hg Hc Hsite) as (w1 & Hc1 & Hlog1 & Hrun).
+    rewrite Hre in Hrun. rewrite Hrun. clear Hrun. cbn [run].
+    pose proof (attempt_atomic stmts no_faults w1 Hc1) as (Hc2 & Hlog2).
+    pose proof (attempt_no_faults stmts w1 Hc1) as Hnf.
+    destruct (att stmts no_faults w1) as [r w2]; cbn [fst snd] in *. subst r.
+    exists w2. rewrite Hlog1 in Hlog2. split; [exact Hc2|]. split; [exact Hlog2|].
+    rewrite Hlog2. reflexivity.
+  Qed.
 End Proofs.
 
 (* ------------------------------------------------------------------------------------------------ *)
@@ -241,7 +345,110 @@ Section Gen.
     | Some _ => committed (snd (gen_attempt stmts f w)) = committed w
     end.
   Proof. apply attempt_atomic; [exact gen_exit_exc | exact gen_exit_ok]. Qed.
+
+  Lemma gen_attempt_fails_iff_fault (stmts : list W) f w :
+    clean_pool w ->
+    (forall e, fault_site (length stmts) f e -> fst (gen_attempt stmts f w) = Some e) /\
+    ((forall e, ~ fault_site (length stmts) f e) -> fst (gen_attempt stmts f w) = None).
+  Proof.
+    intros Hc. split.
+    - intros e Hsite. exact (attempt_fault_site lost_err C27.Gen.on_exit gen_exit_ok C27.Gen.rollback_guarded
+                                                stmts f w e gen_rollback_guarded Hc Hsite).
+    - intros Hno. exact (attempt_no_fault_site lost_err C27.Gen.on_exit gen_exit_ok C27.Gen.rollback_guarded
+                                               stmts f w Hc Hno).
+  Qed.
+
+  (** ** the Database.* helpers *)
+
+  (** the plan regenerated from the helpers' source is the hand specification: one transaction, the single statement,
+      resp. the WHOLE argument array of execute_many *)
+  Lemma gen_helper_plan_spec (c : helper_call W) : C27.Gen.helper_plan c = helper_stmts c.
+  Proof. destruct c; reflexivity. Qed.
+
+  Lemma gen_helper_trace (c : helper_call W) hist w :
+    clean_pool w ->
+    let '(r, _, tr) := gen_helper_run c hist w in
+    trace_spec (committed w) (helper_stmts c) r tr /\ (length tr <= S (length hist))%nat.
+  Proof. intros Hc. unfold gen_helper_run. rewrite gen_helper_plan_spec. exact (gen_run_trace (helper_stmts c) hist w Hc). Qed.
+
+  Lemma gen_helper_atomic (c : helper_call W) hist w :
+    clean_pool w ->
+    let '(r, w', _) := gen_helper_run c hist w in
+    clean_pool w' /\
+    match r with None => committed w' = committed w ++ helper_stmts c | Some _ => committed w' = committed w end.
+  Proof. intros Hc. unfold gen_helper_run. rewrite gen_helper_plan_spec. exact (gen_run_atomic (helper_stmts c) hist w Hc). Qed.
+
+  Lemma gen_fault_first (stmts : list W) f rest w e :
+    clean_pool w -> fault_site (length stmts) f e ->
+    exists w1, clean_pool w1 /\ committed w1 = committed w /\
+      gen_run stmts (f :: rest) w =
+      if transient_spec e
+      then (let '(r2, w2, tr) := gen_run stmts rest w1 in (r2, w2, (Some e, committed w) :: tr))
+      else (Some e, w1, [(Some e, committed w)]).
+  Proof.
+    intros Hc Hsite. unfold gen_run. rewrite <- gen_retryable_spec.
+    exact (run_fault_first lost_err C27.Gen.on_exit gen_exit_exc gen_exit_ok C27.Gen.rollback_guarded C27.Gen.retryable
+                           stmts f rest w e gen_rollback_guarded Hc Hsite).
+  Qed.
+
+  Lemma gen_execute_many_fault_first (rows : list W) f rest w e :
+    clean_pool w -> fault_site (length rows) f e ->
+    exists w1, clean_pool w1 /\ committed w1 = committed w /\
+      gen_helper_run (HExecuteMany rows) (f :: rest) w =
+      if transient_spec e
+      then (let '(r2, w2, tr) := gen_helper_run (HExecuteMany rows) rest w1 in (r2, w2, (Some e, committed w) :: tr))
+      else (Some e, w1, [(Some e, committed w)]).
+  Proof. intros Hc Hsite. unfold gen_helper_run. rewrite gen_helper_plan_spec. exact (gen_fault_first rows f rest w e Hc Hsite). Qed.
+
+  Lemma gen_execute_many_retried_once (rows : list W) f w e :
+    clean_pool w -> fault_site (length rows) f e -> transient_spec e = true ->
+    exists w2, clean_pool w2 /\ committed w2 = committed w ++ rows /\
+      gen_helper_run (HExecuteMany rows) [f] w = (None, w2, [(Some e, committed w); (None, committed w ++ rows)]).
+  Proof.
+    intros Hc Hsite Htr. unfold gen_helper_run. rewrite gen_helper_plan_spec. cbn [helper_stmts]. unfold gen_run.
+    rewrite <- gen_retryable_spec in Htr.
+    exact (run_single_retry lost_err C27.Gen.on_exit gen_exit_exc gen_exit_ok C27.Gen.rollback_guarded C27.Gen.retryable
+                            rows f w e gen_rollback_guarded Hc Hsite Htr).
+  Qed.
+
+  (** row-level reading: every row is in the table exactly once more after success, exactly as often as before after failure *)
+  Lemma gen_helper_exactly_once (dec : forall a b : W, {a = b} + {a <> b}) (c : helper_call W) hist w :
+    clean_pool w ->
+    let '(r, w', _) := gen_helper_run c hist w in
+    occurs_plus dec (committed w') (committed w) (helper_stmts c) (match r with None => 1 | Some _ => 0 end).
+  Proof.
+    intros Hc. pose proof (gen_helper_atomic c hist w Hc) as H.
+    destruct (gen_helper_run c hist w) as [[r w'] tr]. destruct H as (_ & Hlog).
+    unfold occurs_plus. intros x. destruct r as [e|]; rewrite Hlog.
+    - cbn. lia.
+    - rewrite count_occ_app. lia.
+  Qed.
 End Gen.
+
+(** aiomysql's bulk path sends the argument array as a sequence of multi-row statements: however the array is cut into
+    statements, the table (concatenation of the committed statements' rows) gains all rows once or nothing *)
+Lemma gen_execute_many_chunked {W} (chunks : list (list W)) hist (w : @world (list W)) :
+  clean_pool w ->
+  let '(r, w', _) := gen_helper_run (HExecuteMany chunks) hist w in
+  clean_pool w' /\
+  concat (committed w') = concat (committed w) ++ match r with None => concat chunks | Some _ => [] end.
+Proof.
+  intros Hc. pose proof (gen_helper_atomic (HExecuteMany chunks) hist w Hc) as H.
+  destruct (gen_helper_run (HExecuteMany chunks) hist w) as [[r w'] tr]. destruct H as (Hc' & Hlog).
+  split; [exact Hc'|]. destruct r as [e|]; rewrite Hlog.
+  - rewrite app_nil_r. reflexivity.
+  - cbn [helper_stmts]. apply concat_app.
+Qed.
+
+Lemma concat_chunks_of {A} (k : nat) : (1 <= k)%nat -> forall fuel (l : list A), (length l <= fuel)%nat -> concat (chunks_of fuel k l) = l.
+Proof.
+  intros Hk. induction fuel as [|fuel IH]; intros l Hl.
+  - destruct l; [reflexivity|cbn in Hl; lia].
+  - destruct l as [|x l']; [reflexivity|].
+    cbn [chunks_of concat]. rewrite IH.
+    + apply firstn_skipn.
+    + rewrite skipn_length. cbn [length] in *. lia.
+Qed.
 
 (* ------------------------------------------------------------------------------------------------ *)
 (** * Concrete runs; the hypotheses are satisfiable; the defect of the unguarded rollback *)
@@ -250,7 +457,6 @@ Definition e2013 : err := mkErr OperationalError (Some 2013).
 Definition e1213 : err := mkErr OperationalError (Some 1213).
 Definition e1205 : err := mkErr InternalError (Some 1205).
 Definition e1062 : err := mkErr IntegrityError (Some 1062).
-Definition stmt_fault (i : nat) (e : err) (eff : effect) : faults := mkFaults None None (Some (i, e, eff)) None None.
 
 Example ex_clean_pool : clean_pool (mkWorld [100] (@None (@conn Z))) /\ clean_pool (mkWorld [100] (Some (@fresh Z))).
 Proof. split; unfold clean_pool, clean; cbn; auto. Qed.
@@ -290,4 +496,31 @@ Proof. vm_compute. reflexivity. Qed.
 (** why the invariant matters: a dirty connection in the pool would have its writes committed by START TRANSACTION *)
 Example ex_dirty_pool_leaks :
   gen_run [1] [] (mkWorld [] (Some (mkConn [(-99)] true true))) = (None, mkWorld [(-99); 1] (Some fresh), [(None, [(-99); 1])]).
+Proof. vm_compute. reflexivity. Qed.
+
+(** the helpers: the fault-site hypothesis is satisfiable at a row far inside a long argument array and at COMMIT *)
+Example ex_fault_site_row_2200 : fault_site (length (zrange 2500)) (stmt_fault 2200 e1062 StmtOnly) e1062.
+Proof.
+  apply (AtStatement _ _ _ 2200%nat StmtOnly); [reflexivity | reflexivity | reflexivity |].
+  apply Nat.ltb_lt. vm_compute. reflexivity.
+Qed.
+
+Example ex_fault_site_commit : fault_site (length (zrange 2500)) (commit_fault e2013 true) e2013.
+Proof. apply (AtCommit _ _ _ true); [reflexivity | reflexivity | exact I | reflexivity]. Qed.
+
+(** Database.execute_many over 2500 rows: duplicate key at row 2200 — nothing is left behind *)
+Example ex_execute_many_2500_duplicate_key :
+  run_many_Z 2500 [stmt_fault 2200 e1062 StmtOnly] [7] = (Some e1062, [(7, 1)], [(Some e1062, [(7, 1)])]).
+Proof. vm_compute. reflexivity. Qed.
+
+(** ... deadlock at row 2200, then a lost connection at COMMIT: retried as a whole, rows 0..2499 exactly once *)
+Example ex_execute_many_2500_deadlock_then_commit_loss :
+  run_many_Z 2500 [stmt_fault 2200 e1213 TxnRolledBack; commit_fault e2013 true] [7]
+  = (None, [(7, 1); (0, 2500)], [(Some e1213, [(7, 1)]); (Some e2013, [(7, 1)]); (None, [(7, 1); (0, 2500)])]).
+Proof. vm_compute. reflexivity. Qed.
+
+(** the bulk path with 1000-row wire statements: lock-wait timeout at the third statement (rows 2000..2499) *)
+Example ex_execute_many_chunked :
+  run_chunks_Z 2500 1000 [stmt_fault 2 e1205 StmtOnly] [7]
+  = (None, [(7, 1); (0, 2500)], [(Some e1205, [(7, 1)]); (None, [(7, 1); (0, 2500)])]).
 Proof. vm_compute. reflexivity. Qed.
